@@ -28,7 +28,7 @@ fn domain(field: &str) -> Vec<&'static str> {
         "plan" => vec!["ok", "malformed", "missing", "nonutf8"],
         "store" => vec!["absent", "ok", "malformed", "nonutf8", "isdir"],
         "t_os" | "t_arch" | "t_dname" | "t_dver" => vec!["set", "unset"],
-        "t_variant" => vec!["set", "unset", "nonutf8"],
+        "t_variant" => vec!["set", "unset", "empty", "nonutf8"],
         "detect" => vec!["pass", "pass_plan", "fail", "error"],
         "planpath" => vec!["ok", "unwritable"],
         "berror" => vec!["none", "buildpack", "layer"],
@@ -214,6 +214,7 @@ fn run_case(case: &Value, variation: u64, vbp: &Path, scratch: &Path) -> Vec<Pro
     }
     match c("t_variant") {
         "set" => { cmd.env("CNB_TARGET_ARCH_VARIANT", "v8"); }
+        "empty" => { cmd.env("CNB_TARGET_ARCH_VARIANT", ""); }
         "nonutf8" => { cmd.env("CNB_TARGET_ARCH_VARIANT", OsString::from_vec(b"v\xff8".to_vec())); }
         _ => {}
     }
@@ -331,7 +332,7 @@ fn run_case(case: &Value, variation: u64, vbp: &Path, scratch: &Path) -> Vec<Pro
                 if ctx["app_dir"] != json!(hx(&app)) { p6(format!("app_dir: context has {}, platform supplied {}", ctx["app_dir"], hx(&app))); }
                 if ctx["buildpack_dir"] != json!(hx(&bp)) { p6(format!("buildpack_dir: context has {}, platform supplied {}", ctx["buildpack_dir"], hx(&bp))); }
                 if c("exe") == "build" && ctx["layers_dir"] != json!(hx(&layers)) { p6(format!("layers_dir: context has {}, platform supplied {}", ctx["layers_dir"], hx(&layers))); }
-                let want_t = json!({"os": "linux", "arch": "arm64", "arch_variant": match c("t_variant") { "set" => json!("v8"), _ => Value::Null }, "distro_name": "ubuntu core", "distro_version": "24.04"});
+                let want_t = json!({"os": "linux", "arch": "arm64", "arch_variant": match c("t_variant") { "set" => json!("v8"), "empty" => json!(""), _ => Value::Null }, "distro_name": "ubuntu core", "distro_version": "24.04"});
                 if ctx["target"] != want_t { p6(format!("target: context has {}, CNB_TARGET_* say {}", ctx["target"], want_t)); }
                 let want_env: Vec<(String, String)> = expected_env.iter().map(|(k, v)| (hex(k), hex(v))).collect();
                 if ctx["env"] != json!(want_env) { p6(format!("platform env: context has {} entries {:?}, the platform directory holds {:?}", ctx["env"].as_array().map_or(0, Vec::len), ctx["env"], want_env)); }
